@@ -148,6 +148,48 @@ def run(ck):
                 batch = []
     if batch:
         flush(batch)
+    # ---- the same arrangements under other layouts: what separates a directive from its macro name (blanks, tabs, block comments -
+    # trivia, as everywhere else in the token stream), what follows the name on its line, indentation, blank lines and CRLF do
+    # not change what the conditionals select
+    layouts = [("\t", "", "\n", ""), ("  ", " // note", "\n", "  "), (" /* c */ ", "", "\n", ""), ("/**/", " /* t */", "\r\n", "\t"),
+               (" /* a */ /* b\n */ ", "", "\n\n", ""), (" ", "\t// X", "\r\n\r\n", " ")]
+    lseqs = [tup for k in range(1, (3 if quick else 4) + 1) for tup in itertools.product(SYMS, repeat=k) if any(x.startswith("#") and " " in x for x in tup)]
+    if len(lseqs) * len(layouts) > 40000:
+        lseqs = lseqs[:: max(1, len(lseqs) * len(layouts) // 40000)]
+    ltexts, lmeta = [], []
+    for seq in lseqs:
+        for sep, trail, nl, ind in layouts:
+            lines = []
+            for i, sym in enumerate(seq):
+                if sym == "M":
+                    lines.append(ind + "def m%d;" % i)
+                elif sym == "J":
+                    lines.append(ind + '"j%d' % i)
+                elif " " in sym:
+                    d, name = sym.split(" ")
+                    lines.append(ind + d + sep + name + trail)
+                else:
+                    lines.append(ind + sym + trail)
+            ltexts.append(nl.join(lines))
+            lmeta.append(seq)
+    la, _ = core.compare(ck, "layouts:prep", ltexts, lambda t: "prep %s" % hexs(t))
+    lp, _ = core.compare(ck, "layouts:parse", ltexts, lambda t: "parseh %s" % hexs(t))
+    for seq, text, r, pr in zip(lmeta, ltexts, la, lp):
+        wn, markers = reference(seq)
+        if not wn:
+            continue
+        exp = []
+        for _, sym in markers:
+            exp += ["Def", "Id", "Semi"] if sym == "M" else ["Error"]
+        kinds = delivered_markers(r)
+        ne = int(pr.rsplit("ne=", 1)[1]) if "ne=" in pr else -1
+        if kinds != exp:
+            ck.fail(["C15", "selection-layout", " / ".join(seq)], "delivered tokens differ from the reference evaluation when the arrangement %s is laid out as %r" % (" / ".join(seq), text[:80]),
+                    {"cmd": "prep", "text_hex": hexs(text)}, kinds, exp)
+        elif not any(sym == "J" for _, sym in markers) and ne != 0:
+            ck.fail(["C15", "diagnostic-from-wellnested-layout", " / ".join(seq)], "well-nested arrangement yields syntax errors under the layout %r" % text[:80],
+                    {"cmd": "parse", "text_hex": hexs(text)}, pr, "ne=0")
+    ck.count("layouts", len(ltexts), set(ltexts), sample={"text": ltexts[len(ltexts) // 2]})
     # ---- directives without macro name
     bad = []
     for d in ["#ifdef", "#ifndef", "#define"]:
